@@ -1161,3 +1161,54 @@ func (t *Tr) ghostZero(ty *SType) Term {
 	}
 	return t.c.zero(ty.Go)
 }
+
+// closureAxioms: a closure with a contract of the form "ensures result == E" defines the
+// application function for its value: forall params :: apply(clo, params) == E, with the
+// captured variables read in the state at closure creation (listed as an assumption: the
+// captured variables are not reassigned before the closure is applied).
+func (t *Tr) closureAxioms(mc *ssa.MakeClosure, clo Term) {
+	fn := mc.Fn.(*ssa.Function)
+	ct := t.sp.Contracts[funcKey(fn)]
+	if ct == nil || fn.Signature.Results().Len() != 1 {
+		return
+	}
+	c := t.c
+	env := &Env{t: t, c: c, vars: map[string]*SVal{}, locs: map[string]*Loc{}, st: t.curSt, old: t.curSt, pkg: t.pkgByName(ct.Pkg)}
+	var binds []string
+	var ats []Term
+	var ss []Sort
+	ats = append(ats, clo)
+	ss = append(ss, SInt)
+	for _, p := range fn.Params {
+		s := c.sortOf(p.Type())
+		nm := sym("q!" + p.Name())
+		binds = append(binds, fmt.Sprintf("(%s %s)", nm, s))
+		env.vars[p.Name()] = &SVal{Term{nm, s}, goT(p.Type())}
+		ats = append(ats, Term{nm, s})
+		ss = append(ss, s)
+	}
+	for i, fv := range fn.FreeVars {
+		b := t.val(mc.Bindings[i])
+		if b.Loc != nil {
+			env.vars[fv.Name()] = &SVal{c.locRead(t.curSt, b.Loc), goT(b.Loc.valueType())}
+		} else {
+			env.vars[fv.Name()] = &SVal{b.T, goT(fv.Type())}
+		}
+	}
+	rs := c.sortOf(fn.Signature.Results().At(0).Type())
+	ap := app(c.declFun(applyName(ss[1:], rs), ss, rs), rs, ats...)
+	env.vars["result"] = &SVal{ap, goT(fn.Signature.Results().At(0).Type())}
+	for _, e := range ct.Ensures {
+		g, err := env.boolExpr(e.E)
+		if err != nil {
+			t.unsup("closure contract %s: %v", ct.Key, err)
+			continue
+		}
+		if len(binds) == 0 {
+			c.assert(g)
+		} else {
+			c.assert(Term{fmt.Sprintf("(forall (%s) (! %s :pattern (%s)))", strings.Join(binds, " "), g.S, ap.S), SBool})
+		}
+	}
+	t.trusted["closure "+ct.Key+": captured variables are not reassigned between creation and application"] = true
+}
